@@ -113,8 +113,8 @@ fn pts_of<T: Comp>(w: &[f32], dim: usize) -> Vec<T> {
 
 fn run_bez<T>(w: &[f32], dim: usize, t: f32) -> String
 where
-    T: Affine + Clone + Comp,
-    T::Diff: Linear<Scalar = f32> + Clone + Comp,
+    T: Affine + Clone + Comp + PartialEq + std::fmt::Debug,
+    T::Diff: Linear<Scalar = f32> + Clone + Comp + PartialEq + std::fmt::Debug,
 {
     let p: Vec<T> = pts_of(w, dim);
     let b = CubicBezier([p[0].clone(), p[1].clone(), p[2].clone(), p[3].clone()]);
@@ -128,8 +128,8 @@ where
 
 fn run_spl<T>(w: &[f32], dim: usize, t: f32) -> String
 where
-    T: Affine + Clone + Comp,
-    T::Diff: Linear<Scalar = f32> + Clone + Comp,
+    T: Affine + Clone + Comp + PartialEq + std::fmt::Debug,
+    T::Diff: Linear<Scalar = f32> + Clone + Comp + PartialEq + std::fmt::Debug,
 {
     let p: Vec<T> = pts_of(w, dim);
     let s = BezierSpline::new(&p);
@@ -138,8 +138,8 @@ where
 
 fn run_rays<T>(w: &[f32], dim: usize, t: f32) -> String
 where
-    T: Affine + Clone + Comp,
-    T::Diff: Linear<Scalar = f32> + Clone + Comp,
+    T: Affine + Clone + Comp + PartialEq + std::fmt::Debug,
+    T::Diff: Linear<Scalar = f32> + Clone + Comp + PartialEq + std::fmt::Debug,
 {
     let rays: Vec<Ray<T, T::Diff>> =
         w.chunks(2 * dim).map(|c| Ray(T::from_c(&c[..dim]), <T::Diff>::from_c(&c[dim..]))).collect();
@@ -149,8 +149,8 @@ where
 
 fn run_apx<T>(w: &[f32], dim: usize, thr: f32) -> String
 where
-    T: Affine + Clone + Comp,
-    T::Diff: Linear<Scalar = f32> + Clone + Comp,
+    T: Affine + Clone + Comp + PartialEq + std::fmt::Debug,
+    T::Diff: Linear<Scalar = f32> + Clone + Comp + PartialEq + std::fmt::Debug,
 {
     let p: Vec<T> = pts_of(w, dim);
     let s = BezierSpline::new(&p);
@@ -389,7 +389,20 @@ pub fn gen(rng: &mut Rng, tier: Tier, out: &mut Vec<String>) {
         let (k, dim) = kind(rng);
         let segs = if rng.chance(1, 3) { 1 } else { rng.range(1, 9) as usize };
         let n = 3 * segs + 1;
-        let w = polygon(rng, n, dim);
+        let mut w = polygon(rng, n, dim);
+        // one curve in six is CLOSED (the last control point equals the first; one in twelve also returns to
+        // its start at a join in between): the end points of a span coincide although the span is not flat
+        if i % 6 == 5 {
+            for c in 0..dim {
+                w[(n - 1) * dim + c] = w[c];
+            }
+            if i % 12 == 11 && segs >= 2 {
+                let j = 3 * (1 + rng.below(segs as u64 - 1) as usize);
+                for c in 0..dim {
+                    w[j * dim + c] = w[c];
+                }
+            }
+        }
         let m = w.iter().fold(0.0f32, |a, x| a.max(x.abs())).max(1e-30);
         // thresholds from coarse to tiny, relative to the polygon's magnitude; the tiny ones
         // drive the recursion to its depth bound (few of them: output grows to 2^14 points)
